@@ -48,35 +48,32 @@ Fixpoint find_libp2p (l : list ext) : option extv :=
   | XOther _ _ :: r => find_libp2p r
   end.
 
-(* cert.Verify(VerifyOptions{Roots: pool}) with pool = {cert itself}.
+(* cert.Verify(VerifyOptions{Roots: pool}) with pool = {cert itself}, then
+   cert.CheckSignature(cert.SignatureAlgorithm, cert.RawTBSCertificate, cert.Signature).
    crypto/x509 (verify.go): `if opts.Roots.contains(c) { candidateChains = {{c}} }`
-   — a certificate that is itself in the root pool is its own chain and NO
-   signature is checked; what remains of Verify is c.isValid: the validity
-   period and "no unhandled critical extension" (the libp2p extension was
-   removed from that list by the loop above).  The certificate's
-   self-signature (c_signer, c_intact) is therefore NOT verified by
-   PubKeyFromCertChain; confirmed on the real code by the harness
-   (presentations signed-by-other-cert-key, altered-after-signing). *)
+   — a certificate that is itself in the root pool is its own chain and Verify
+   checks NO signature; what remains of it is c.isValid: the validity period
+   and "no unhandled critical extension" (the libp2p extension was removed from
+   that list by the loop above).  The self-signature is verified by the
+   explicit CheckSignature (repair 8beaf91 of the defect found by this check:
+   certificates signed by another key or altered after signing were accepted). *)
 Definition other_critical (e : ext) : bool :=
   match e with XOther _ c => c | XLibp2p _ _ => false end.
-(* what a verification of the self-signature would add *)
+
+(* signed by its own key over the bytes as they are *)
 Definition self_signed (c : cert) : bool := (c_signer c =? c_key c) && c_intact c.
 
-(* [selfsig]: does PubKeyFromCertChain check the certificate's signature
-   explicitly?  false for the code as it is; regenerated from the source on
-   every run (gen.Consts_c01.tls_self_signature_checked), so that the model
-   follows a repaired tree. *)
-Definition cert_verify (selfsig : bool) (c : cert) : bool :=
-  (negb selfsig || self_signed c) && c_time_ok c && negb (existsb other_critical (c_exts c)).
+Definition cert_verify (c : cert) : bool :=
+  c_time_ok c && negb (existsb other_critical (c_exts c)) && self_signed c.
 
 (* PubKeyFromCertChain *)
-Definition pubkey_from_chain (selfsig : bool) (chain : list cert) : nt + N :=
+Definition pubkey_from_chain (chain : list cert) : nt + N :=
   match chain with
   | [c] =>
       match find_libp2p (c_exts c) with
       | None => inr T_NOEXT
       | Some v =>
-          if negb (cert_verify selfsig c) then inr T_CERTVERIFY
+          if negb (cert_verify c) then inr T_CERTVERIFY
           else match v with
                | XJunk => inr T_ASN1
                | XSigned pub sg =>
@@ -102,9 +99,9 @@ Definition parse_ok (c : cert) : bool := nodup_oids (c_exts c).
 
 (* the VerifyPeerCertificate callback built by ConfigForPeer(remote): what is
    put on keyCh, or the error *)
-Definition verify_peer (selfsig : bool) (remote : option N) (raw : list cert) : nt + N :=
+Definition verify_peer (remote : option N) (raw : list cert) : nt + N :=
   if negb (forallb parse_ok raw) then inr T_PARSE
-  else match pubkey_from_chain selfsig raw with
+  else match pubkey_from_chain raw with
        | inr e => inr e
        | inl pub =>
            match remote with
@@ -135,9 +132,9 @@ Inductive tres := TDone (id : N) (key : nt) | TFail (cls : N).
 Definition T_HANDSHAKE : N := 9.   (* crypto/tls aborted: bad record MAC, transcript, CertificateVerify, alert, EOF *)
 
 (* transport.go handshake(): HandshakeContext, then the key from keyCh; setupConn derives the ID *)
-Definition tls_endpoint (selfsig : bool) (me other : tside) (received_edited peer_failed : bool) : tres :=
+Definition tls_endpoint (me other : tside) (received_edited peer_failed : bool) : tres :=
   if received_edited || peer_failed then TFail T_HANDSHAKE
-  else match verify_peer selfsig (t_expect me) (t_chain other) with
+  else match verify_peer (t_expect me) (t_chain other) with
        | inr e => TFail e
        | inl pub =>
            if negb (t_holds other) then TFail T_HANDSHAKE
@@ -150,9 +147,9 @@ Definition tls_endpoint (selfsig : bool) (me other : tside) (received_edited pee
 Definition tfailed (r : tres) : bool := match r with TFail _ => true | TDone _ _ => false end.
 
 (* TLS 1.3: the client finishes after the server's flight; the server after the client's *)
-Definition tls_run (selfsig : bool) (c s : tside) (e : tedit) : tres * tres :=
-  let rc := tls_endpoint selfsig c s (match e with TClientHello | TServerFlight => true | _ => false end) false in
-  let rs := tls_endpoint selfsig s c (match e with TNone => false | _ => true end) (tfailed rc) in
+Definition tls_run (c s : tside) (e : tedit) : tres * tres :=
+  let rc := tls_endpoint c s (match e with TClientHello | TServerFlight => true | _ => false end) false in
+  let rs := tls_endpoint s c (match e with TNone => false | _ => true end) (tfailed rc) in
   (rc, rs).
 
 (* ---- the swarm: dialAddr and dialPeer ------------------------------------------------------ *)
